@@ -30,3 +30,30 @@ func TestXlsxInlineRichText(t *testing.T) {
 		t.Fatalf("inline rich text lost or phonetic text leaked: %q", txt)
 	}
 }
+
+// C17 / R17.14: the tab-separated text wrote cell values as they are. A cell with a line break (Alt+Enter) or a tab
+// started a new line / field, so every later cell of the sheet was no longer at line r, field c.
+func TestXlsxTextGridSurvivesLineBreaksInCells(t *testing.T) {
+	p := xlsxOf(t, `<row r="1"><c r="A1" t="inlineStr"><is><t>h1</t></is></c><c r="B1" t="inlineStr"><is><t>h2</t></is></c></row>`+
+		`<row r="2"><c r="A2" t="inlineStr"><is><t>line1&#10;line2</t></is></c><c r="B2" t="inlineStr"><is><t>tab&#9;inside</t></is></c></row>`+
+		`<row r="3"><c r="A3" t="inlineStr"><is><t>a3</t></is></c><c r="B3" t="inlineStr"><is><t>b3</t></is></c></row>`)
+	txt, _, err := tabula.Open(p).Text()
+	if err != nil {
+		t.Fatal(err)
+	}
+	lines := strings.Split(txt, "\n")
+	if len(lines) != 3 {
+		t.Fatalf("3 rows became %d lines: %q", len(lines), txt)
+	}
+	for i, l := range lines {
+		if f := strings.Split(l, "\t"); len(f) != 2 {
+			t.Errorf("line %d has %d fields, want 2: %q", i+1, len(f), l)
+		}
+	}
+	if f := strings.Split(lines[2], "\t"); f[0] != "a3" || f[len(f)-1] != "b3" {
+		t.Errorf("A3/B3 are not at line 3: %q", lines[2])
+	}
+	if !strings.Contains(lines[1], "line1") || !strings.Contains(lines[1], "line2") || !strings.Contains(lines[1], "inside") {
+		t.Errorf("row 2 lost text: %q", lines[1])
+	}
+}
